@@ -86,6 +86,23 @@ func propC06(c *Ctx) {
 			n, ok := constInt(b.Y)
 			return b.Op == token.GTR && isStopLoad(b.X, fStop) && ok && n == 0
 		})
+		// the same fact spelled otherwise: stop == 0 (true edge), stop != 0 / stop >= 1 (false edge), stop < 1 (true edge)
+		for _, sp := range []struct {
+			op     token.Token
+			k      int64
+			onTrue bool
+		}{{token.EQL, 0, true}, {token.NEQ, 0, false}, {token.GEQ, 1, false}, {token.LSS, 1, true}} {
+			sp := sp
+			t, f := m.cmpEdges(func(b *ssa.BinOp) bool {
+				n, ok := constInt(b.Y)
+				return b.Op == sp.op && isStopLoad(b.X, fStop) && ok && n == sp.k
+			})
+			if sp.onTrue {
+				stopZero = append(stopZero, t...)
+			} else {
+				stopZero = append(stopZero, f...)
+			}
+		}
 		ubStop := &ubound{fn: conv, vac: stopZero, reg: m.reg}
 		clipOK := ubStop.Bounded(target, func(v ssa.Value) bool { return isStopLoad(v, fStop) })
 		detail := "an unclipped target reaches the step size although stop > 0 and target > stop"
